@@ -712,12 +712,18 @@ func newFirstByteRig() *firstByteRig {
 // probe opens a connection whose first byte is b and reports what the listener chose and how
 // the first reply looked.
 func (f *firstByteRig) probe(b byte) (chosen, string, error) {
-	cl, sv := net.Pipe()
-	f.ln.ch <- sv
 	// b, then what would complete a binary no-op header (opcode 0x0a is also a line feed),
 	// then a line end
 	payload := append([]byte{b, 0x0a}, make([]byte, 22)...)
 	payload = append(payload, '\r', '\n')
+	return f.probePayload(payload)
+}
+
+// probePayload opens a connection that sends payload and reports what the listener chose and how
+// the first reply looked.
+func (f *firstByteRig) probePayload(payload []byte) (chosen, string, error) {
+	cl, sv := net.Pipe()
+	f.ln.ch <- sv
 	go func() {
 		cl.SetWriteDeadline(time.Now().Add(5 * time.Second))
 		cl.Write(payload)
@@ -944,6 +950,47 @@ func c07(e *env) {
 	f := newFirstByteRig()
 	for b := 0; b < 256; b++ {
 		x.doFirst(f, b)
+	}
+	// ... and every supported command as the FIRST request of a connection (the protocol is decided
+	// by the first byte alone: 0x80 is binary whatever opcode follows, a lowercase letter is text)
+	for i := 0; i < 60; i++ {
+		for _, proto := range []string{"bin", "text"} {
+			var q wire.Req
+			if proto == "bin" {
+				q = g.binReq(false)
+				if i < 16 { // every arm of the generator at least once
+					q = []wire.Req{
+						{Kind: wire.Set, Key: []byte("k"), Data: []byte("v"), Opaque: 1}, {Kind: wire.Add, Key: []byte("k"), Data: []byte("v"), Opaque: 1},
+						{Kind: wire.Replace, Key: []byte("k"), Data: []byte("v"), Opaque: 1}, {Kind: wire.Append, Key: []byte("k"), Data: []byte("v"), Opaque: 1},
+						{Kind: wire.Prepend, Key: []byte("k"), Data: []byte("v"), Opaque: 1}, {Kind: wire.Delete, Key: []byte("k"), Opaque: 1},
+						{Kind: wire.Touch, Key: []byte("k"), TTL: 5, Opaque: 1}, {Kind: wire.Gat, Key: []byte("k"), TTL: 5, Opaque: 1},
+						{Kind: wire.Get, Items: []wire.Item{{Key: []byte("k"), Opaque: 1}}}, {Kind: wire.Get, Items: []wire.Item{{Key: []byte("k"), Opaque: 1, Quiet: true}}, NoopEnd: true, NoopOpaque: 2},
+						{Kind: wire.GetE, Items: []wire.Item{{Key: []byte("k"), Opaque: 1}}}, {Kind: wire.GetE, Items: []wire.Item{{Key: []byte("k"), Opaque: 1, Quiet: true}}, NoopEnd: true, NoopOpaque: 2},
+						{Kind: wire.Noop, Opaque: 1}, {Kind: wire.Version, Opaque: 1}, {Kind: wire.Stat, Opaque: 1}, {Kind: wire.Quit, Opaque: 1},
+					}[i]
+				}
+			} else {
+				q = g.textReq(false)
+			}
+			q.Quiet = false
+			payload := encode(proto, q)
+			if proto == "bin" {
+				payload = append(payload, encode(proto, wire.Req{Kind: wire.Noop, Opaque: 77})...) // something is answered in any case
+			} else {
+				payload = append(payload, []byte("version\r\n")...)
+			}
+			ch, reply, err := f.probePayload(payload)
+			d := map[string]interface{}{"tier": "first-request", "proto": proto, "request": fmt.Sprintf("%+v", q), "wire": wire.Hex(payload)}
+			// (the rig's handlers are nil handlers: only the selection is judged, not the reply)
+			switch {
+			case err != nil:
+				w.Fail(rig.GoFailure{Kind: "counterexample", What: "connection not served", Input: d, Detail: err.Error()})
+			case ch.parser != proto || ch.responder != proto:
+				w.Fail(rig.GoFailure{Kind: "counterexample", What: "the protocol of a connection was not decided by the first byte of its first request", Input: d,
+					Detail: fmt.Sprintf("first byte %#x; selected %+v; the first reply is a %s", payload[0], ch, reply)})
+			}
+			w.Count("first-request->" + ch.parser)
+		}
 	}
 	w.Res.Stats["seconds_first_byte"] = time.Since(t0).Seconds()
 	// tier D: several connections being decoded at the same time. Each stream starts with a quiet-get
